@@ -129,17 +129,83 @@ def false_case_obligation(k):
                        "enters the else-branch exactly in the \\else case, and fails only at the end of the input"))
 
 
+def ifcase_obligation(k):
+    from mir2smt.execmir import Agg, Ref, Cell, Opaque
+    base = false_case_obligation(k)
+    env = dict((pat, f) for pat, f in base["env_models"])
+
+    def build(sym, bind):
+        a, vals = base["build_args"](sym, bind)
+        if sym.consts is not None:
+            a["n"] = I(sym.consts.get("n", 0))
+        else:
+            a["n"] = tm.V("n")
+            sym.assumes.append(tm.in_range(a["n"], 32, True))
+            sym.vars["n"] = "i32"
+        return a, vals
+
+    def env_parse_n(ex, m, args, tys, st, fn, symargs):
+        st.log.append(("parse_number",))
+        return [(st, Enum(0, {0: [symargs["n"]]}, "Result"))]
+
+    def env_push_branch(ex, m, args, tys, st, fn, symargs):
+        st.log.append(("push_branch", args[1].fields[1].tag.val))
+        return [(st, Agg([]))]
+
+    def post(a, ret, st):
+        cls, n = a["cls"], a["n"]
+        consumed = sum(1 for e in st.log if e[0] == "token")
+        pushes = [e[1] for e in st.log if e[0] == "push_branch"]
+        SWITCH, ELSE_KIND = 2, 1  # BranchKind discriminants in source order: True, Else, Switch
+        if consumed == 0 and ret.tag.val == 0:
+            # case 0 is selected at once
+            return tm.and_(tm.eq(n, I(0)), tm.B(pushes == [SWITCH]))
+        depth, ors = I(0), I(0)
+        stop_or, stop_else, stop_fi = [], [], []
+        for i in range(k):
+            at0 = tm.eq(depth, I(0))
+            is_or = tm.and_(tm.eq(cls[i], I(OR)), at0)
+            stop_or.append(tm.and_(is_or, tm.eq(tm.add(ors, I(1)), n)))
+            stop_else.append(tm.and_(tm.eq(cls[i], I(ELSE)), at0))
+            stop_fi.append(tm.and_(tm.eq(cls[i], I(FI)), at0))
+            ors = tm.add(ors, tm.ite(is_or, I(1), I(0)))
+            depth = tm.add(depth, tm.ite(tm.eq(cls[i], I(IF)), I(1), tm.ite(tm.eq(cls[i], I(FI)), I(-1), I(0))))
+        stops = [tm.or_(x, y, z) for x, y, z in zip(stop_or, stop_else, stop_fi)]
+        nonzero = tm.ne(n, I(0))
+        if ret.tag.val == 1:
+            return tm.and_(nonzero, tm.B(consumed == k and not pushes), *[tm.not_(s) for s in stops])
+        i = consumed - 1
+        first = tm.and_(nonzero, stops[i], *[tm.not_(s) for s in stops[:i]])
+        if pushes == [SWITCH]:
+            return tm.and_(first, stop_or[i])       # the n-th \\or at depth 0: case n is selected
+        if pushes == [ELSE_KIND]:
+            return tm.and_(first, stop_else[i], tm.not_(stop_or[i]))   # out of range (or negative): \\else
+        if pushes == []:
+            return tm.and_(first, stop_fi[i], tm.not_(stop_or[i]), tm.not_(stop_else[i]))
+        return tm.FALSE
+
+    env["^<i32 as (?:[a-z_]+::)*Parsable>::parse::<.*>$"] = env_parse_n
+    env["^push_branch::<S>$"] = env_push_branch
+    return dict(base, max_paths=200000, name=f"c07_ifcase_skips_{k}_tokens", fn=("texlang-stdlib", "if_case_primitive_fn", None, None), build_args=build,
+                env_models=list(env.items()), post=post,
+                witnesses=[("case 2 selected after a nested conditional", lambda a: tm.and_(tm.eq(a["n"], I(2)), tm.eq(a["cls"][0], I(OR)), tm.eq(a["cls"][1], I(IF)), tm.eq(a["cls"][2], I(FI)), tm.eq(a["cls"][3], I(OR)))),
+                           ("negative case number falls to \\else", lambda a: tm.and_(tm.lt(a["n"], I(0)), tm.eq(a["cls"][0], I(OR)), tm.eq(a["cls"][1], I(ELSE))))] if k >= 4 else [],
+                funcs=["texlang_stdlib::conditional::if_case_primitive_fn (generic MIR; number scanner, token stream, tag lookup, component and push_branch stubbed)"],
+                bound=(f"every case number (i32) and every stream of {k} tokens with arbitrary tags: case 0 is selected at once; otherwise text is skipped up to the n-th \\or at depth 0 "
+                       "(case n), or to the first \\else at depth 0 (out of range or negative n selects \\else), or to the closing \\fi; nested conditionals are skipped whole (TeX.2021.509)"))
+
+
 PROP = {
-    "level_text": 'Only the \\ifodd condition is decided (every i32, scanner stubbed). Branch skipping, \\ifcase/\\or/\\else/\\fi, \\ifnum, nesting and \\expandafter/\\noexpand are VM-bound and NOT decided.',
+    "level_text": 'Decided: the \\ifodd and \\ifnum conditions for every i32 operand (scanners stubbed); the skipping of the branch not taken (false_case) and the case selection of \\ifcase at driver level, with the token stream, the tag lookup and the branch stack replaced by stubs, for every stream prefix of <= 5 (ifcase: 4) tokens including nested conditionals. NOT decided: the \\or/\\else/\\fi primitives, \\let-aliased conditionals, \\expandafter/\\noexpand (VM-bound).',
     "title": "Conditionals deliver only the selected branch; \\expandafter acts on one token",
-    "explanation": "Engine B decides the condition of \\ifodd for every 32-bit operand from the MIR of IfOdd::evaluate, with the integer scanner replaced by a stub that returns an arbitrary i32.",
+    "explanation": "Engine B decides the \\ifodd / \\ifnum conditions for every 32-bit operand from the MIR of IfOdd::evaluate / IfNum::evaluate (scanners stubbed to return arbitrary values), and executes the generic MIR of false_case and if_case_primitive_fn against a symbolic token stream (each token's tag arbitrary among if/else/or/fi/none) to decide where skipping stops (TeX.2021.494-509).",
     "outside": [
-        "skipping is decided at driver level only (false_case with the token stream and tag lookup stubbed, <= 5 tokens); \\ifcase/\\or skipping, the \\else/\\fi primitives' branch stack, \\let-aliased conditionals (the tag lookup is a stub), \\expandafter / \\noexpand: NOT decided (VM-bound)",
+        "skipping is decided at driver level only (false_case with the token stream and tag lookup stubbed, <= 5 tokens); the \\or/\\else/\\fi primitives themselves (what happens when the selected branch ends) and their branch stack, \\let-aliased conditionals (the tag lookup is a stub), \\expandafter / \\noexpand: NOT decided (VM-bound)",
         "\\ifnum: scanning of the two numbers and of the relation character (<, =, >) is stubbed; only the comparison is decided",
     ],
     "assumptions": ["i32::parse(input) is stubbed: returns Ok(n) for an arbitrary i32 n (its own behaviour is the subject of C06)"],
     "obligations": [
-        false_case_obligation(4), false_case_obligation(5),
+        false_case_obligation(4), false_case_obligation(5), ifcase_obligation(4),
         dict(engine="B", name="c07_ifnum_condition", crates=["texlang-stdlib"], fn=("texlang-stdlib", "evaluate", "IfNum", "Condition"),
              args=[("input", "opaque ExpansionInput")],
              env_models=[(r"^<\(i32, (?:[a-z_]+::)*Ordering, i32\) as (?:[a-z_]+::)*Parsable>::parse::<.*>$", env_parse_relation)],
